@@ -2599,7 +2599,7 @@ def optimise_quantize(op: Operation, arch, nng):
         # Make quantize op const and disconnect from parent node
 
         # Remove reference of the current quant op from the parent tensor's consumer list
-        ifm.consumer_list = [consumer for consumer in ifm.consumer_list if consumer.op_index != op.op_index]
+        ifm.consumer_list = [consumer for consumer in ifm.consumer_list if consumer is not op]
 
         # Clear any references to parent node
         op.inputs = []
